@@ -49,6 +49,37 @@ def pattern(rng, h, w, kind):
     return v
 
 
+def no_good_kernel_in_block(pair, res, case, lost):
+    """True iff every block that writes one of the `lost` source pixels has, in its processing input window, no kernel whose R2
+    (as recorded in the parameter image of this very run) exceeds the in-painting threshold"""
+    import warnings
+    from homonim import RasterFuse, utils as hu
+    from homonim.enums import ProcCrs
+    with warnings.catch_warnings():
+        warnings.simplefilter('ignore')
+        with RasterFuse(pair.src_path, pair.ref_path, proc_crs=ProcCrs(case['proc'])) as rf:
+            proc_ref = rf.proc_crs.name == 'ref'
+            ph_, pw_ = (rf.ref_im.shape if proc_ref else rf.src_im.shape)
+            import fusion as _f
+            import rasters as _r
+            src, ref = _r.Grid.from_dict(case['src']), _r.Grid.from_dict(case['ref'])
+            pwh = _f.proc_window_shape(src, ref, proc_ref)
+            mbm = _f.block_mem_for(case['halvings'], pwh[0], pwh[1], src.px, ref.px, proc_ref) if case['halvings'] else 100
+            bps = [bp for bp in rf.block_pairs(overlap=hu.overlap_for_kernel(tuple(case['kernel'])), max_block_mem=mbm) if bp.band_i == 0]
+    r2 = res.param[2 * (res.param.shape[0] // 3)].astype('float64')      # R2 of the first band pair
+    for bp in bps:
+        so = bp.src_out_block
+        rows, cols = slice(max(int(so.row_off), 0), int(so.row_off + so.height)), slice(max(int(so.col_off), 0), int(so.col_off + so.width))
+        if not lost[rows, cols].any():
+            continue
+        pin = bp.ref_in_block if proc_ref else bp.src_in_block
+        blk = r2[max(int(pin.row_off), 0):int(pin.row_off + pin.height), max(int(pin.col_off), 0):int(pin.col_off + pin.width)]
+        with np.errstate(invalid='ignore'):
+            if (blk > case['thresh']).any():
+                return False
+    return True
+
+
 def degenerate_window(src, ref, svals, sv, proc_ref, kernel, r, c):
     """does the kernel window that decides source pixel (r, c) hold fewer than two distinct source values (no OLS solution)?"""
     kh, kw = kernel
@@ -126,9 +157,11 @@ def run(run: common.Run):
                 pg = ref if src.px <= ref.px else src
                 ph_ = min(src.h - 2, -(-(kh + 3) * pg.py // src.py))
                 pw_ = min(src.w - 2, -(-(kw + 3) * pg.px // src.px))
-                if ph_ >= 2 and pw_ >= 2:
+                # (only where the image is several times larger than the patch, so that well-modelled kernels exist around it)
+                if ph_ >= 2 and pw_ >= 2 and 3 * ph_ <= src.h and 3 * pw_ <= src.w:
                     r0_, c0_ = rng.randrange(1, src.h - ph_), rng.randrange(1, src.w - pw_)
                     s[:, r0_:r0_ + ph_, c0_:c0_ + pw_] = 100.0
+                    case['flat_patch'] = (r0_, c0_, ph_, pw_)
                     run.hist['gain-offset with in-painting: exactly constant source patch'] += 1
         else:
             # arbitrary data (negative, zero) and reference holes: only the subset relation is required
@@ -187,6 +220,22 @@ def run(run: common.Run):
                     # finding D17: without in-painting the two-parameter fit has no solution in a window that holds a single
                     # jointly valid pixel (or a constant source), and the pixel is lost
                     sig['degenerate_window'] = True
+                fp = case.get('flat_patch')
+                if fp and case['thresh'] is not None and case['model'] == 'gain-offset':
+                    inside = np.zeros(sv.shape, bool)
+                    inside[fp[0]:fp[0] + fp[2], fp[1]:fp[1] + fp[3]] = True
+                    if not (lost & ~inside).any() and case['halvings']:
+                        # finding D25: in-painting is per block; a block all of whose kernels are degenerate (or poor) has nothing to
+                        # in-paint from.  Recognised by experiment: the same fusion as ONE block loses none of these pixels
+                        try:
+                            one = fusion.run_fuse(pair.src_path, pair.ref_path, tmp / 'c03_one.tif', model=case['model'],
+                                                  kernel_shape=case['kernel'], proc_crs=case['proc'], param=False, threads=1, max_block_mem=100,
+                                                  model_config=dict(upsampling=case['upsampling'], r2_inpaint_thresh=case['thresh']),
+                                                  out_profile=prof)
+                            if not (lost & ~one.corr_mask).any():
+                                sig.update(flat_patch=True, only_when_blocked=True)
+                        except Exception:
+                            pass
                 run.fail(case, f'valid source pixel ({rr},{cc}) is invalid in the corrected image ({int(lost.sum())} lost '
                          f'pixels; hypotheses of the converse hold)', signature=sig)
                 continue
@@ -194,7 +243,48 @@ def run(run: common.Run):
                                                    'out_dtype', 'hyp', 'proc')}, valid_src=int(sv.sum()),
                         valid_corr=int(cm.sum())), 4)
     isolated_pixel_leg(run, tmp)
+    flat_block_leg(run, tmp)
     resamp.check_resampler(run, 45 if run.quick() else 600)
+
+
+def flat_block_leg(run, tmp):
+    """
+    Finding D25, reproduced on every run: gain-offset with the default in-painting, a 40 x 40 patch of constant source values in a
+    64 x 64 source on a 2:1 reference, kernel 3 x 3.  As one block (or four) every valid source pixel is corrected; with sixteen
+    blocks the blocks that lie wholly inside the patch have no well-modelled kernel to in-paint from and come out invalid.
+    """
+    u = 8
+    ref = rasters.Grid(u * 5000, u * 9000, 2 * u, 2 * u, 40, 40)
+    src = rasters.Grid(ref.x0 + 4 * u, ref.ytop - 4 * u, u, u, 64, 64)
+    rng = run.rng('flat-block')
+    s = np.array([[[rng.randint(20, 200) for _ in range(src.w)] for _ in range(src.h)]], float)
+    s[:, 10:50, 12:52] = 100.0
+    r = np.array([[[rng.randint(30, 150) for _ in range(ref.w)] for _ in range(ref.h)]], float)
+    pair = fusion.write_pair(tmp, 'c03flat', src, ref, s, r, None, None)
+    ph, pw = fusion.proc_window_shape(src, ref, True)
+    lost = {}
+    for hv in (0, 4):
+        case = dict(i=960_000 + hv, op='flat source patch larger than a block', model='gain-offset', kernel=(3, 3), thresh=0.25, halvings=hv,
+                    src=src.to_dict(), ref=ref.to_dict())
+        try:
+            res = fusion.run_fuse(pair.src_path, pair.ref_path, tmp / 'c03flat_out.tif', model='gain-offset', kernel_shape=(3, 3), param=False,
+                                  threads=1, max_block_mem=fusion.block_mem_for(hv, ph, pw, src.px, ref.px, True) if hv else 100,
+                                  model_config=dict(upsampling='nearest'))
+        except Exception as ex:
+            run.fail(case, f'fusion raised {type(ex).__name__}: {ex}', signature=dict(kind='raises'))
+            return
+        run.evaluations += 1
+        run.hist['flat-block cases (finding D25)'] += 1
+        lost[hv] = ~res.corr_mask
+        inside = np.zeros((src.h, src.w), bool)
+        inside[10:50, 12:52] = True
+        if lost[hv].any():
+            sig = dict(kind='lost-pixel')
+            if hv and not lost[0].any() and not (lost[hv] & ~inside).any():
+                sig.update(flat_patch=True, only_when_blocked=True)
+            rr, cc = np.argwhere(lost[hv])[0]
+            run.fail(case, f'valid source pixel ({rr},{cc}) is invalid in the corrected image ({int(lost[hv].sum())} lost pixels, all inside the '
+                     f'constant patch; none is lost when the image is processed as one block)', signature=sig)
 
 
 def isolated_pixel_leg(run, tmp):
